@@ -527,6 +527,13 @@ def domain_given(prog: Program) -> RuleResult:
     return r
 
 
+def _hv_ident(prog):
+    # 'each once', as itself: the wrapper every domain element travels in keeps the element and identifies it by identity
+    from .c01 import hv_ident
+
+    return hv_ident(prog)
+
+
 def _stream_lazy(prog):
     # 'at evaluation time': the stream of instances the symbol graph hands to the variable is stored when the variable is declared and pulled
     # from when the query is evaluated - drained at declaration, instances created in between are missing
@@ -542,4 +549,4 @@ def run(prog: Program, tier: str) -> List[RuleResult]:
     return [guard(lambda: sg_register(prog)), guard(lambda: sg_enum(prog)), guard(lambda: sg_sweep(prog, census_only=True)), guard(lambda: sg_evaltime(prog)), guard(lambda: domain_cache(prog)),
             guard(lambda: user_truth(prog, ["entity_query_language.symbol_graph"], 3)), guard(lambda: _idkey(prog)),
             # the enumeration is consumed lazily: a sweep between two of its steps must not shift the list under it (a live instance skipped)
-            guard(lambda: live_iter(prog)), guard(lambda: sg_singleton(prog)), guard(lambda: domain_given(prog)), guard(lambda: _stream_lazy(prog))]
+            guard(lambda: live_iter(prog)), guard(lambda: sg_singleton(prog)), guard(lambda: domain_given(prog)), guard(lambda: _stream_lazy(prog)), guard(lambda: _hv_ident(prog))]
